@@ -693,8 +693,7 @@ func init() {
 		},
 
 		// ---------------- sync / context ----------------
-		"(*sync.Mutex).Lock": icZero, "(*sync.Mutex).Unlock": icZero, "(*sync.Mutex).TryLock": icTrue,
-		"(*sync.RWMutex).Lock": icZero, "(*sync.RWMutex).Unlock": icZero, "(*sync.RWMutex).RLock": icZero, "(*sync.RWMutex).RUnlock": icZero,
+		// sync.Mutex / sync.RWMutex: lockset.go
 		"(*sync.Once).Do": func(ex *Exec, fr *frame, fn *ssa.Function, args []Value, pos tokenPos) Value {
 			p := args[0].(PtrV)
 			done := p.c.subs[0]
